@@ -48,6 +48,10 @@ class C:
         self.im = R0 if im is None else _r(im)
 
     @staticmethod
+    def _scalar_like(x):
+        return isinstance(x, (C, LF, Sym, SymBool, int, float, complex)) or z3.is_expr(x)
+
+    @staticmethod
     def of(x):
         if isinstance(x, C):
             return x
@@ -73,6 +77,8 @@ class C:
     def __add__(self, o):
         if isinstance(o, LF):
             return o + self
+        if not C._scalar_like(o):
+            return NotImplemented
         o = C.of(o)
         return C(z3.simplify(self.re + o.re), z3.simplify(self.im + o.im))
 
@@ -93,6 +99,8 @@ class C:
     def __mul__(self, o):
         if isinstance(o, (LF, SArr)):
             return o * self
+        if not C._scalar_like(o):
+            return NotImplemented
         o = C.of(o)
         if o.is_real():
             return C(z3.simplify(self.re * o.re), z3.simplify(self.im * o.re))
@@ -242,6 +250,18 @@ class LF:
     def is_value(self):
         return not self.terms
 
+    # numpy-scalar look-alikes (a full reduction returns a scalar)
+    shape = ()
+    ndim = 0
+    size = 1
+
+    @property
+    def dtype(self):
+        return CDT
+
+    def item(self):
+        return self.value().item()
+
     def value(self):
         if self.terms:
             raise NonLinear("non-linear use of an input element")
@@ -366,56 +386,15 @@ def _solve_for(eq_l, eq_r, v):
 
 
 def eliminate_binders(term, extra_eq=()):
-    """generalised one-point rule.  Bound variables are processed in creation order: a range variable is
-    replaced by the solution of an equation (a guard conjunct v == e, or one of the extra equalities
-    idx_i == t_i) in which it occurs with coefficient +-1; a functionally defined pair q, r := divmod(a, d)
-    is re-instantiated on the substituted arguments (division theorem: fresh witnesses with their defining
-    constraints added to the current context).  Returns a binder-free Term or None."""
+    """generalised one-point rule (see partial_eliminate); returns a binder-free Term or None when a bound variable
+    survives.  The index equalities are NOT folded into the returned guard (callers add them)."""
     if not term.binders:
         return term
-    sub = []          # list of (var, value)
-
-    def ap(e):
-        return z3.substitute(e, *sub) if sub else e
-    eqs = [(_lift(a), _lift(b)) for a, b in extra_eq]
-    conj = []
-    for g in term.guard:
-        g = z3.simplify(g)
-        conj += list(g.children()) if z3.is_and(g) else [g]
-    for g in conj:
-        if z3.is_eq(g) and g.arg(0).sort() == z3.IntSort():
-            eqs.append((g.arg(0), g.arg(1)))
-    extra_guard = []
-    pending = list(term.binders)
-    # variables of binders not yet processed (a solution must not mention them)
-    def later_vars(i):
-        out = []
-        for bb in pending[i:]:
-            out += [bb.q, bb.r] if bb.kind == "def" else [bb.v]
-        return out
-    for i, bnd in enumerate(pending):
-        if bnd.kind == "def":
-            a2, d2 = ap(bnd.a), ap(bnd.d)
-            if any(_contains(a2, v) or _contains(d2, v) for v in later_vars(i + 1)):
-                return None
-            q2, r2 = core._divmod_global(a2, d2)
-            sub += [(bnd.q, q2), (bnd.r, r2)]
-            continue
-        sol = None
-        for l, r in eqs:
-            l2, r2 = ap(l), ap(r)
-            cand = _solve_for(l2, r2, bnd.v)
-            if cand is not None and not any(_contains(cand, v) for v in later_vars(i + 1)):
-                sol = cand
-                break
-        if sol is None:
-            return None
-        sub.append((bnd.v, sol))
-        extra_guard.append(z3.And(sol >= ap(_lift(bnd.lo)), sol < ap(_lift(bnd.hi))))
-    guard = [ap(g) for g in conj] + extra_guard
-    idx = [ap(i) for i in term.idx]
-    coef = C(ap(term.coef.re), ap(term.coef.im))
-    return Term((), guard, coef, term.atom, idx, term.conj)
+    remaining, guard, coef = partial_eliminate(term, extra_eq)
+    if remaining:
+        return None
+    # recover substituted indices: re-run the substitution on idx through a probe term
+    return Term((), [guard], coef, term.atom, [ _lift(b) for _, b in extra_eq ] if len(extra_eq) == len(term.idx) else list(term.idx), term.conj)
 
 
 # ----------------------------------------------------------------------------- arrays
@@ -1015,8 +994,21 @@ def _inverse_index(shape, idx):
 
 # --- shape manipulation -----------------------------------------------------------------------
 def _drop_ones(shape):
-    """positions of axes that are not the python constant 1"""
-    return [d for d, s in enumerate(shape) if not (isinstance(s, int) and s == 1)]
+    """positions of axes whose extent is not (provably, on this path) 1"""
+    out = []
+    for d, s in enumerate(shape):
+        if isinstance(s, int):
+            if s != 1:
+                out.append(d)
+        elif not _provable(_lift(s) == 1):
+            out.append(d)
+    return out
+
+
+def _provable_same(a, b):
+    if isinstance(a, int) and isinstance(b, int):
+        return a == b
+    return _provable(_lift(a) == _lift(b))
 
 
 def reshape(a, shape):
@@ -1031,7 +1023,7 @@ def reshape(a, shape):
     old = a.shape
     ko, kn = _drop_ones(old), _drop_ones(shape)
     # case 1: same non-unit extents in order
-    if len(ko) == len(kn) and all(_same(old[i], shape[j]) for i, j in zip(ko, kn)):
+    if len(ko) == len(kn) and all(_provable_same(old[i], shape[j]) for i, j in zip(ko, kn)):
         def wmap(k, ko=ko, kn=kn, r=len(old)):
             out = [z3.IntVal(0)] * r
             for i, j in zip(ko, kn):
@@ -1166,7 +1158,8 @@ def sum_(a, axis=None, keepdims=False):
         return acc
     r = SArr(shape, el, a.dtype)
     if not shape and not keepdims:
-        return r
+        # numpy returns a SCALAR (numpy scalar type, np.isscalar -> True), not a 0-d array, for a full reduction
+        return el(())
     return r
 
 
@@ -1333,7 +1326,7 @@ class _Linalg(_NS):
 
 
 def _isscalar(x):
-    return isinstance(x, (int, float, complex, Sym, C)) and not isinstance(x, bool) or isinstance(x, (bool,))
+    return isinstance(x, (int, float, complex, Sym, C, LF)) and not isinstance(x, bool) or isinstance(x, (bool,))
 
 
 def _zeros(shape, dtype=None, **kw):
@@ -1426,11 +1419,18 @@ def _np_expand_dims(a, axis):
 def _np_empty(shape, dtype=None, **kw):
     z = _zeros(shape, dtype)
     junk_name = core.fresh_name("uninit")
-    return SArr(z.shape, lambda k: atom_elem(junk_name, k, valued=True), z.dtype)
+    return SArr(z.shape, lambda k: atom_elem(junk_name, k), z.dtype)
 
 
 def _np_shape(a):
     return a.shape
+
+
+def _np_asarray(a, dtype=None):
+    if isinstance(a, SArr):
+        return a
+    v = LF.of(a)
+    return SArr((), lambda k: v, CDT)
 
 
 def _np_linspace(start, stop, num=50, endpoint=True, **kw):
@@ -1523,6 +1523,7 @@ class _Numpy(_NS):
     ceil = staticmethod(core.sym_ceil)
     floor = staticmethod(core.sym_floor)
     linspace = staticmethod(_np_linspace)
+    asarray = staticmethod(_np_asarray)
     squeeze = staticmethod(_np_squeeze)
     max = staticmethod(_np_max)
     amax = staticmethod(_np_max)
@@ -1665,14 +1666,135 @@ def lf_equal_goals(a, b, tag="t"):
         goals += [("%s:%s" % (nm, sfx), g) for sfx, g in _split_eq(x, y)]
     for (atom, cj), rank in lf_atoms(a, b).items():
         t = tuple(z3.Int("%s!%s%d" % (tag, atom, d)) for d in range(rank))
+        if atom.startswith("uninit!"):
+            # np.empty: the result must not depend on uninitialised memory, on either side
+            for side, lf in (("lhs", a), ("rhs", b)):
+                cu, lu = coef_of(lf, atom, t, cj)
+                if lu:
+                    goals.append(("%s:%s-independent-of-uninitialised-memory" % (atom, side), z3.BoolVal(False)))
+                else:
+                    goals.append(("%s:%s-independent-of-uninitialised-memory" % (atom, side), z3.And(cu.re == 0, cu.im == 0)))
+            continue
         ca, la = coef_of(a, atom, t, cj)
         cb, lb = coef_of(b, atom, t, cj)
-        if la or lb:
-            raise Unsupported("linear form with a summation that the one-point rule cannot eliminate (atom %s)" % atom)
         nm = atom + ("*" if cj else "")
+        if la or lb:
+            goals += [("%s:%s" % (nm, sfx), g) for sfx, g in match_leftover(la, lb, t, t)]
         goals += [("%s.re:%s" % (nm, sfx), g) for sfx, g in _split_eq(ca.re, cb.re)]
         goals += [("%s.im:%s" % (nm, sfx), g) for sfx, g in _split_eq(ca.im, cb.im)]
     return goals or [("trivial", z3.BoolVal(True))]
+
+
+def _unused(bnd, term, eqs):
+    """the bound variable occurs nowhere but in its own range condition"""
+    v = bnd.v
+    rc = bnd.range_cond()
+    if any(_contains(i, v) for i in term.idx) or _contains(term.coef.re, v) or _contains(term.coef.im, v):
+        return False
+    for g in term.guard:
+        for gg in (g.children() if z3.is_and(g) else [g]):
+            if _contains(gg, v) and not (gg.eq(rc) or any(gg.eq(c) for c in (rc.children() if z3.is_and(rc) else [rc]))):
+                return False
+    for b in term.binders:
+        if b is bnd:
+            continue
+        if b.kind == "def":
+            if _contains(b.a, v) or _contains(b.d, v):
+                return False
+        elif _contains(_lift(b.lo), v) or _contains(_lift(b.hi), v):
+            return False
+    for l, r in eqs:
+        if _contains(l, v) or _contains(r, v):
+            return False
+    return True
+
+
+def partial_eliminate(term, eqs):
+    """apply the one-point rule to as many bound variables as possible; returns (remaining vars, guard Bool, coef C)
+    with the index equalities folded into the guard"""
+    sub = []
+    remaining = []
+    sigs = {}
+    count_factor, dropped = [], []
+    ap = lambda e: z3.substitute(e, *sub) if sub else e
+    eqs = [(_lift(a), _lift(b)) for a, b in eqs]
+    n_given = len(eqs)
+    for g in term.guard:
+        g = z3.simplify(g)
+        for gg in (g.children() if z3.is_and(g) else [g]):
+            if z3.is_eq(gg) and gg.arg(0).sort() == z3.IntSort():
+                eqs.append((gg.arg(0), gg.arg(1)))
+    for bnd in term.binders:
+        if bnd.kind == "def":
+            a2, d2 = ap(bnd.a), ap(bnd.d)
+            if any(_contains(a2, v) or _contains(d2, v) for v in remaining):
+                remaining += [bnd.q, bnd.r]
+                sigs[bnd.q.get_id()] = sigs[bnd.r.get_id()] = "def"
+                continue
+            q2, r2 = core._divmod_global(a2, d2)
+            sub += [(bnd.q, q2), (bnd.r, r2)]
+            continue
+        sol = None
+        for l, r in eqs:
+            cand = _solve_for(ap(l), ap(r), bnd.v)
+            if cand is not None and not any(_contains(cand, v) for v in remaining):
+                sol = cand
+                break
+        if sol is None:
+            lo_, hi_ = ap(_lift(bnd.lo)), ap(_lift(bnd.hi))
+            if _provable(hi_ == lo_ + 1):
+                sol = z3.simplify(lo_)        # singleton range on this path
+        if sol is None and _unused(bnd, term, eqs):
+            # summation over an index that nothing depends on: contributes the number of its values
+            cnt = z3.simplify(ap(_lift(bnd.hi)) - ap(_lift(bnd.lo)))
+            count_factor.append(z3.If(cnt > 0, z3.ToReal(cnt), z3.RealVal(0)))
+            dropped.append(bnd)
+            continue
+        if sol is None:
+            remaining.append(bnd.v)
+            sigs[bnd.v.get_id()] = "%s..%s" % (z3.simplify(ap(_lift(bnd.lo))), z3.simplify(ap(_lift(bnd.hi))))
+        else:
+            sub.append((bnd.v, sol))
+    dr = [b.range_cond() for b in dropped]
+    guard = z3.And(*([ap(g) for g in term.guard if not any(g.eq(d) for d in dr)] + [ap(b.range_cond()) for b in term.binders if b not in dropped]
+                     + [ap(l) == ap(r) for l, r in eqs[:n_given]]))
+    coef = C(ap(term.coef.re), ap(term.coef.im))
+    for cf in count_factor:
+        coef = coef * C(cf)
+    partial_eliminate.last_sigs = sigs
+    return remaining, z3.simplify(guard), coef
+
+
+def match_leftover(la, lb, ta, tb, conj_b=False):
+    """summations that the one-point rule cannot remove are matched structurally: the i-th leftover term of one side
+    against the i-th of the other, bound variables renamed in creation order; guards must be equivalent and the
+    coefficients equal pointwise (conjugated on side b when conj_b).  Sufficient, not necessary."""
+    if len(la) != len(lb):
+        return [("summation-structure", z3.BoolVal(False))]
+    out = []
+    for n, (xa, xb) in enumerate(zip(la, lb)):
+        va, ga, ca = partial_eliminate(xa, list(zip(xa.idx, ta)))
+        sa = dict(partial_eliminate.last_sigs)
+        vb, gb, cb = partial_eliminate(xb, list(zip(xb.idx, tb)))
+        sb = dict(partial_eliminate.last_sigs)
+        if len(va) != len(vb):
+            out.append(("summation-structure#%d" % n, z3.BoolVal(False)))
+            continue
+        # pair bound variables by their ranges (creation order breaks ties)
+        ren, used = [], set()
+        for v2 in vb:
+            cand = [v1 for v1 in va if v1.get_id() not in used and sa.get(v1.get_id()) == sb.get(v2.get_id())]
+            if not cand:
+                cand = [v1 for v1 in va if v1.get_id() not in used]
+            used.add(cand[0].get_id())
+            ren.append((v2, cand[0]))
+        if ren:
+            gb = z3.substitute(gb, *ren)
+            cb = C(z3.substitute(cb.re, *ren), z3.substitute(cb.im, *ren))
+        out.append(("sum#%d:guards" % n, ga == gb))
+        out.append(("sum#%d:re" % n, z3.Implies(ga, ca.re == cb.re)))
+        out.append(("sum#%d:im" % n, z3.Implies(ga, ca.im == (-cb.im if conj_b else cb.im))))
+    return out
 
 
 def lf_equal_goal(a, b, tag="t"):
